@@ -214,6 +214,71 @@ func c15(x *ctx) {
 				map[int]string{0: union([]string{t1, t2}), 1: t2}, "(p, q):two-sites")
 		}
 	}
+	// call chains: f(a) is reached directly with one type and through 1-3 intermediate methods with another;
+	// the direct site sits at top level before the definitions, at top level after them, or inside a helper
+	// method; definitions are written callee-first or caller-first
+	maxDepth := 3
+	for _, t1 := range tys {
+		for _, t2 := range tys {
+			for depth := 1; depth <= maxDepth; depth++ {
+				for _, direct := range []string{"top-before", "top-after", "in-helper"} {
+					for _, order := range []string{"callee-first", "caller-first"} {
+						if !thorough && order == "caller-first" && direct != "top-after" {
+							continue
+						}
+						var sb strings.Builder
+						row := 0
+						var probes []probe
+						line := func(s string) { sb.WriteString(s + "\n"); row++ }
+						u := union([]string{t1, t2})
+						defF := func() {
+							line("def f(a)")
+							probes = append(probes, probe{row: row, want: u, wantDiag: -1, what: "signature-param", isSigParam: true})
+							line("  dbtp a")
+							probes = append(probes, probe{row: row, want: u, wantDiag: -1, what: "param-in-body"})
+							line("  a")
+							line("end")
+						}
+						defChain := func(k int) {
+							callee := "f"
+							if k > 1 {
+								callee = fmt.Sprintf("c%d", k-1)
+							}
+							line(fmt.Sprintf("def c%d(q%d)", k, k))
+							line(fmt.Sprintf("  %s(q%d)", callee, k))
+							line("end")
+						}
+						if direct == "top-before" {
+							line("f(" + tyLit[t1] + ")")
+						}
+						if order == "callee-first" {
+							defF()
+							for k := 1; k <= depth; k++ {
+								defChain(k)
+							}
+						} else {
+							for k := depth; k >= 1; k-- {
+								defChain(k)
+							}
+							defF()
+						}
+						switch direct {
+						case "top-after":
+							line("f(" + tyLit[t1] + ")")
+						case "in-helper":
+							line("def helper")
+							line("  f(" + tyLit[t1] + ")")
+							line("  1")
+							line("end")
+							line("helper")
+						}
+						line(fmt.Sprintf("c%d(%s)", depth, tyLit[t2]))
+						progs = append(progs, prog{sb.String(), probes, fmt.Sprintf("(a):chain:depth=%d:direct=%s:%s", depth, direct, order)})
+					}
+				}
+			}
+		}
+	}
 	cases := make([]*engine.Case, len(progs))
 	for i, p := range progs {
 		cases[i] = &engine.Case{Cfg: "core", Files: map[string]string{"t.rb": p.src}, Argv: []string{"t.rb", "-i"}}
